@@ -94,19 +94,29 @@ func init() {
 	registry["C06"] = func() Check {
 		return &SeqCheck{Prop: "C06",
 			Ideal: famState(5), IdealProps: []string{"P_C06", "P_C10"}, IdealInvs: []string{"CodeReadyIsSpecReady"}, Probes: probeBlankAgents, Extra: inductiveClaimRule,
-			Proc: &ProcCheck{Prop: "C06", Scenarios: "StateScenarios", IdealInvs: []string{"Serializable"}, Only: []string{"C06_serial", "C06_final"}},
+			Proc:     &ProcCheck{Prop: "C06", Scenarios: "StateScenarios", IdealInvs: []string{"Serializable"}, Only: []string{"C06_serial", "C06_final"}},
 			GenQuick: famState(3), GenThorough: famState(5), SampleQuick: 150,
 			Sim: with(famState(12), func(m *SeqModel) { m.MaxTasks = 3; m.Extras = append(m.Extras, "modes") }), SimNumQuick: 80, SimNumThorough: 2000}
 	}
 	registry["C07"] = func() Check {
 		return &SeqCheck{Prop: "C07",
 			Ideal: famGraph(3, 2, 5), IdealDeep: famGraph(3, 2, 7), IdealProps: []string{"P_C07"},
-			Proc: &ProcCheck{Prop: "C07", Scenarios: "SeqScenarios", IdealInvs: []string{"Serializable"}, Only: []string{"C07_final"}},
+			Proc:     &ProcCheck{Prop: "C07", Scenarios: "SeqScenarios", IdealInvs: []string{"Serializable"}, Only: []string{"C07_final"}},
 			GenQuick: famGraph(3, 1, 4), GenThorough: famGraph(3, 2, 6), SampleQuick: 300, Probes: probeEdges,
 			// chains (sequence A B C, also with repeated ids) over tasks and over childless epics
 			GenMore: []SeqModel{
-				with(famGraph(3, 0, 5), func(m *SeqModel) { m.Name = "chains-tasks"; m.Extras = []string{"chains"}; m.StateArgs = nil; m.CmdNames = []string{"new_task", "sequence", "sequence_rm"} }),
-				with(famGraph(0, 3, 5), func(m *SeqModel) { m.Name = "chains-epics"; m.Extras = []string{"chains"}; m.StateArgs = nil; m.CmdNames = []string{"new_epic", "sequence", "sequence_rm"} }),
+				with(famGraph(3, 0, 5), func(m *SeqModel) {
+					m.Name = "chains-tasks"
+					m.Extras = []string{"chains"}
+					m.StateArgs = nil
+					m.CmdNames = []string{"new_task", "sequence", "sequence_rm"}
+				}),
+				with(famGraph(0, 3, 5), func(m *SeqModel) {
+					m.Name = "chains-epics"
+					m.Extras = []string{"chains"}
+					m.StateArgs = nil
+					m.CmdNames = []string{"new_epic", "sequence", "sequence_rm"}
+				}),
 			},
 			CraftQuick: famCraft(600, "prune", "compact"), CraftThorough: famCraft(8000, "prune", "compact"),
 			Sim: with(famGraph(4, 2, 14), func(m *SeqModel) { m.Extras = append(m.Extras, "chains", "badid") }), SimNumQuick: 60, SimNumThorough: 2000}
@@ -114,7 +124,7 @@ func init() {
 	registry["C08"] = func() Check {
 		return &SeqCheck{Prop: "C08",
 			Ideal: famReady(3, 2, 5), IdealDeep: famReady(3, 2, 7), IdealProps: []string{"P_C08"}, IdealInvs: []string{"CodeReadyIsSpecReady"}, Probes: probeClaimOrder,
-			Proc: &ProcCheck{Prop: "C08", Scenarios: "ClaimScenarios", IdealInvs: []string{"Serializable"}, Only: []string{"C08_serial"}, MaxRunsQuick: 500},
+			Proc:     &ProcCheck{Prop: "C08", Scenarios: "ClaimScenarios", IdealInvs: []string{"Serializable"}, Only: []string{"C08_serial"}, MaxRunsQuick: 500},
 			GenQuick: famReady(2, 2, 4), GenThorough: famReady(3, 2, 6), SampleQuick: 120,
 			CraftQuick: famCraft(700, "claim", "list_ready"), CraftThorough: famCraft(8000, "claim", "list_ready"),
 			Sim: famReady(4, 2, 14), SimNumQuick: 60, SimNumThorough: 2000}
@@ -122,7 +132,7 @@ func init() {
 	registry["C09"] = func() Check {
 		return &SeqCheck{Prop: "C09",
 			Ideal: famIds(2, 1, 5), IdealDeep: famIds(3, 1, 6), IdealProps: []string{"P_C09"}, IdealInvs: []string{"CodePruneIsSpecPrune"}, Probes: probeReissue,
-			Proc: &ProcCheck{Prop: "C09", Scenarios: "PruneScenarios", IdealInvs: []string{"Serializable"}, Only: []string{"C09_serial"}},
+			Proc:     &ProcCheck{Prop: "C09", Scenarios: "PruneScenarios", IdealInvs: []string{"Serializable"}, Only: []string{"C09_serial"}},
 			GenQuick: famIds(2, 1, 4), GenThorough: famIds(2, 1, 6), SampleQuick: 100,
 			CraftQuick: famCraft(1200, "prune", "prune_dry"), CraftThorough: famCraft(8000, "prune", "prune_dry"),
 			Sim: famIds(3, 2, 12), SimNumQuick: 60, SimNumThorough: 2000}
@@ -130,7 +140,7 @@ func init() {
 	registry["C10"] = func() Check {
 		return &SeqCheck{Prop: "C10",
 			Ideal: famFull(3), IdealDeep: famFull(4), IdealProps: []string{"P_C10"}, Probes: append(append(append([]emitted{}, probeHalf...), probeD10...), probeTorn...),
-			Proc: &ProcCheck{Prop: "C10", Scenarios: "FailScenarios", IdealInvs: []string{"Serializable"}, Only: []string{"C10_serial"}},
+			Proc:     &ProcCheck{Prop: "C10", Scenarios: "FailScenarios", IdealInvs: []string{"Serializable"}, Only: []string{"C10_serial"}},
 			GenQuick: famFull(2), GenThorough: famFullModes(3), SampleQuick: 60,
 			Sim: with(famFullModes(10), func(m *SeqModel) { m.MaxTasks = 3 }), SimNumQuick: 100, SimNumThorough: 3000}
 	}
@@ -143,7 +153,7 @@ func init() {
 	registry["C14"] = func() Check {
 		return &SeqCheck{Prop: "C14",
 			Ideal: famIds(2, 2, 4), IdealDeep: famIds(3, 2, 6), IdealProps: []string{"P_C14"}, Probes: append(append([]emitted{}, probeEpicRef...), probeIDOrder...),
-			Proc: &ProcCheck{Prop: "C14", Scenarios: "PruneScenarios", IdealInvs: []string{"Serializable"}, Only: []string{"C14_final"}},
+			Proc:     &ProcCheck{Prop: "C14", Scenarios: "PruneScenarios", IdealInvs: []string{"Serializable"}, Only: []string{"C14_final"}},
 			GenQuick: famIds(2, 1, 4), GenThorough: famIds(2, 2, 6), SampleQuick: 100,
 			CraftQuick: famCraft(800, "prune", "compact"), CraftThorough: famCraft(8000, "prune", "compact"),
 			Sim: famIds(3, 2, 12), SimNumQuick: 60, SimNumThorough: 2000}
@@ -151,14 +161,14 @@ func init() {
 	registry["C15"] = func() Check {
 		return &SeqCheck{Prop: "C15",
 			Ideal: famGraph(3, 2, 5), IdealDeep: famGraph(3, 2, 7), IdealProps: []string{"P_C15"}, IdealInvs: []string{"CodeWaitsIsSpecWaits"}, Probes: probeD10,
-			Proc: &ProcCheck{Prop: "C15", Scenarios: "SeqScenarios", IdealInvs: []string{"Serializable"}, Only: []string{"C15_final"}},
+			Proc:     &ProcCheck{Prop: "C15", Scenarios: "SeqScenarios", IdealInvs: []string{"Serializable"}, Only: []string{"C15_final"}},
 			GenQuick: famGraph(2, 2, 5), GenThorough: famGraph(3, 2, 7), SampleQuick: 150,
 			Sim: with(famGraph(4, 2, 14), func(m *SeqModel) { m.CmdNames = append(m.CmdNames, "claim") }), SimNumQuick: 60, SimNumThorough: 2000}
 	}
 	registry["C16"] = func() Check {
 		return &SeqCheck{Prop: "C16",
 			Ideal: famFull(3), IdealDeep: famFull(4), IdealProps: []string{"P_C16"}, Probes: probeHalf,
-			Proc: &ProcCheck{Prop: "C16", Scenarios: "PruneScenarios", IdealInvs: []string{"Serializable"}, Only: []string{"C16_prune_truth"}},
+			Proc:     &ProcCheck{Prop: "C16", Scenarios: "PruneScenarios", IdealInvs: []string{"Serializable"}, Only: []string{"C16_prune_truth"}},
 			GenQuick: famFull(2), GenThorough: famFullModes(3), SampleQuick: 60,
 			Sim: with(famFullModes(10), func(m *SeqModel) { m.MaxTasks = 3 }), SimNumQuick: 100, SimNumThorough: 3000}
 	}
